@@ -328,18 +328,73 @@ func ruleR13_2(w *World, r *Report) {
 		"caseAllMatchedNotVisible":    {".Type == $0.gotPushPullPack.Type.String()", "!$0.datatypeDoc.UpdatedDatatypeDoc.Visible"},
 	}
 	seen := map[string]bool{}
-	forEachInstr(fn, func(in ssa.Instruction) {
+	var visit func(in ssa.Instruction)
+	defer func() {
+		for n := range need {
+			if !seen[n] {
+				r.Bad("evaluatePushPullCase/"+n, u.Pos(fn.Pos()), "the case "+n+" is never returned")
+			}
+		}
+	}()
+	// the returns of a new helper that only yields the case (its caller adds the nil error) are not the caller's
+	// own returns for the engine: they are visited here
+	defer func() {
+		forEachInstr(fn, func(in ssa.Instruction) {
+			c, ok := in.(*ssa.Call)
+			if !ok {
+				return
+			}
+			h := c.Call.StaticCallee()
+			if h == nil || !flattenable[h] || h.Signature.Results().Len() != 1 || tailReturn(c) != nil {
+				return
+			}
+			if nn, isN := h.Signature.Results().At(0).Type().(*types.Named); !isN || nn.Obj().Name() != "pushPullCase" {
+				return
+			}
+			forEachOwnInstr(h, func(x ssa.Instruction) {
+				if _, isRet := x.(*ssa.Return); isRet {
+					visit(x)
+				}
+			})
+		})
+	}()
+	visit = func(in ssa.Instruction) {
 		ret, ok := in.(*ssa.Return)
-		if !ok || len(ret.Results) != 2 {
+		if !ok {
+			return
+		}
+		// a new helper that classifies part of the cases and returns only the case
+		caseOnly := false
+		if len(ret.Results) == 1 && ret.Parent() != fn && flattenable[ret.Parent()] {
+			if nn, isN := ret.Results[0].Type().(*types.Named); isN && nn.Obj().Name() == "pushPullCase" {
+				caseOnly = true
+			}
+		}
+		if len(ret.Results) != 2 && !caseOnly {
 			return
 		}
 		k, isK := constInt(ret.Results[0])
 		if !isK {
-			r.Undecided("evaluatePushPullCase/return", u.Pos(ret.Pos()), "non-constant case")
+			// handed on from a new helper, whose own returns are judged
+			fromHelper := false
+			var src ssa.Value = ret.Results[0]
+			if ex, isEx := src.(*ssa.Extract); isEx {
+				src = ex.Tuple
+			}
+			if c, isC := src.(*ssa.Call); isC {
+				if h := c.Call.StaticCallee(); h != nil && flattenable[h] {
+					fromHelper = true
+				}
+			}
+			if !fromHelper {
+				r.Undecided("evaluatePushPullCase/return", u.Pos(ret.Pos()), "non-constant case")
+			}
 			return
 		}
 		name := caseName(k)
-		if c, isC := ret.Results[1].(*ssa.Const); !isC || c.Value != nil {
+		if caseOnly {
+			// the error that accompanies it is the one its caller returns with it
+		} else if c, isC := ret.Results[1].(*ssa.Const); !isC || c.Value != nil {
 			r.Check(name == "caseError", "evaluatePushPullCase/error return", u.Pos(ret.Pos()), "caseError with the error", "a storage error is returned together with "+name)
 			return
 		}
@@ -363,12 +418,8 @@ func ruleR13_2(w *World, r *Report) {
 			return
 		}
 		r.Check(okp && allPathsContain(norm, req...), "evaluatePushPullCase/"+name, u.Pos(ret.Pos()), "returned under "+strings.Join(req, " && "), fmt.Sprintf("%s is returned under %v; expected every path to establish %v", name, norm, req))
-	})
-	for n := range need {
-		if !seen[n] {
-			r.Bad("evaluatePushPullCase/"+n, u.Pos(fn.Pos()), "the case "+n+" is never returned")
-		}
 	}
+	forEachInstr(fn, visit)
 	// key lookup is scoped by the handler's collection
 	for _, c := range callsNamed(fn, "GetDatatypeByKey") {
 		a := c.Common().Args
@@ -481,10 +532,19 @@ func ruleR13_3(w *World, r *Report) {
 		if hs == nil {
 			r.Bad("callHandlers/state handler", u.Pos(ch.Pos()), "the state-change handler is never invoked")
 		} else {
+			// the two states handed to the handler, whatever position or carrier (parameter, field of a parameter) they have
+			want := map[string]bool{}
+			if a := hs.Common().Args; len(a) >= 2 {
+				x, y := canonName(a[len(a)-2]), canonName(a[len(a)-1])
+				want["+"+x+"-"+y+" != 0"] = true
+				want["-"+x+"+"+y+" != 0"] = true
+				want["+"+y+"-"+x+" != 0"] = true
+				want["-"+y+"+"+x+" != 0"] = true
+			}
 			paths, _ := pathLinCmps(ch, hs.(ssa.Instruction), nil)
 			good := len(paths) > 0
 			for _, p := range paths {
-				good = good && len(p) == 1 && p[0] == "+$2-$3 != 0"
+				good = good && len(p) == 1 && want[p[0]]
 			}
 			// and every exit on which old != new has passed it
 			forEachInstr(ch, func(in ssa.Instruction) {
@@ -496,7 +556,7 @@ func ruleR13_3(w *World, r *Report) {
 				for _, p := range ps {
 					changed := false
 					for _, l := range p.Lits {
-						if lc, ok := canonLinCmp(l); ok && lc.String() == "+$2-$3 != 0" {
+						if lc, ok := canonLinCmp(l); ok && want[lc.String()] {
 							changed = true
 						}
 					}
@@ -527,7 +587,29 @@ func ruleR13_3(w *World, r *Report) {
 		goes := false
 		forEachInstr(ap, func(in ssa.Instruction) {
 			if g, ok := in.(*ssa.Go); ok && calleeName(g) == "callHandlers" {
-				goes = origins(g.Call.Args[1])["invoke:Append"] || origins(g.Call.Args[1])["call:MultipleOrdaErrors.Append"]
+				// the collected errors are among what is handed over (as an argument, or as a field of a struct argument)
+				var cands []ssa.Value
+				for _, a := range g.Call.Args {
+					cands = append(cands, a)
+					if ld, isLd := a.(*ssa.UnOp); isLd && ld.Op == token.MUL {
+						if al, isAl := ld.X.(*ssa.Alloc); isAl {
+							for _, ref := range *al.Referrers() {
+								if fa, isFA := ref.(*ssa.FieldAddr); isFA {
+									for _, r2 := range *fa.Referrers() {
+										if st, isSt := r2.(*ssa.Store); isSt && st.Addr == ssa.Value(fa) {
+											cands = append(cands, st.Val)
+										}
+									}
+								}
+							}
+						}
+					}
+				}
+				for _, cnd := range cands {
+					if o := origins(cnd); o["invoke:Append"] || o["call:MultipleOrdaErrors.Append"] {
+						goes = true
+					}
+				}
 			}
 		})
 		r.Check(good && app && goes, "ApplyPushPullPack/refusal reaches the error handler", u.Pos(ap.Pos()), "error appended and handed to callHandlers; no state change on error", "an error response does not suppress the state change, or is not handed to the error handler")
